@@ -59,8 +59,9 @@ func (o *tcpSYNCmdOpts) startScan(ctx context.Context, args []string) (err error
 		withTCPScanName(scanName),
 		withTCPPacketFillerOptions(tcp.WithSYN()),
 		withTCPPacketFilterFunc(func(pkt *layers.TCP) bool {
-			// port is open
-			return pkt.SYN && pkt.ACK
+			// port is open: exactly SYN+ACK, the BPF filter checks
+			// the other flags but can not see the NS bit
+			return pkt.SYN && pkt.ACK && !pkt.NS
 		}),
 		withTCPPacketFlags(tcp.EmptyFlags),
 	)
